@@ -48,6 +48,32 @@ def ir_to_wasm(ir_module: ir.Module, reporter=None) -> components.Module:
     return ir_to_wasm_compiler.create_wasm_module()
 
 
+def split_phi_edges(ir_function):
+    """Give each edge from a block with several successors to a block
+    with phi nodes a block of its own.
+
+    The selection graph builder places the copies for the phi nodes of a
+    successor at the end of the block. Without the extra block they are
+    also executed when another successor is taken, where the old value
+    of the phi can still be in use (for example the value of a loop
+    variable after the loop). The native code generator does the same.
+    """
+    edge_nr = 0
+    for block in list(ir_function):
+        successors = block.successors
+        if len(successors) < 2:
+            continue
+        for successor in successors:
+            if not successor.phis:
+                continue
+            edge_nr += 1
+            edge_block = ir.Block(f"{ir_function.name}_phi_edge_{edge_nr}")
+            ir_function.add_block(edge_block)
+            edge_block.add_instruction(ir.Jump(successor))
+            block.change_target(successor, edge_block)
+            successor.replace_incoming(block, [edge_block])
+
+
 class IrToWasmCompiler:
     """Translates ir-code into wasm"""
 
@@ -247,6 +273,10 @@ class IrToWasmCompiler:
         self.local_vars = []
         self.stack = 0
         self.logger.debug("Generating wasm for %s", ir_function)
+
+        # The copies for phi nodes are placed at the end of the predecessor
+        # block: give edges out of a branching block their own block.
+        split_phi_edges(ir_function)
 
         # Generate function code:
         # Create a selection graph, so that we have expression trees
